@@ -66,3 +66,15 @@ claim("C08", "exploration",
       "Generated chains of class-typed components with an extends level and a type definition, where a parameter value and the attributes of a variable are modified at 2-4 competing levels with literal and name-referencing expressions (same name in inner and outer scope); every library is printed twice with independent spellings (nested / dotted / mixed). Each accepted spelling is compared with the reference merge by value, and two accepted spellings with each other; a rejected spelling is acceptable.",
       "trusts the merge order implemented in vf/mlib.py (type definition < declaration < extends inner-to-outer < enclosing components inner-to-outer)",
       "DESIGN.md section 4, C08")
+
+claim("C09", "exploration",
+      "reference connection-set model (union-find over inside/outside elements) vs flat equations, compared as solution sets by exact rank computation",
+      "Generated connection graphs (chains, stars, cycles, redundant/reversed clauses, set merges, outside connectors, sub-models connected inside, connector classes with 1-3 potential and flow variables and a parameter member; every clause permutation for small graphs) are flattened by the real code; the coefficient rows of the flat equations are extracted numerically and rank(A)=rank(B)=rank([A;B]) is decided exactly over fractions against the Modelica connection-set system.",
+      "scalar connectors only; sub-model connectors connected inside are also connected outside so that 'in no connection' is unambiguous",
+      "DESIGN.md section 4, C09")
+
+claim("C27", "exploration",
+      "metamorphic monitor over all merge-order permutations and both real discovery paths, with the unsplit library as reference",
+      "Generated package libraries (package constants, nested package, models using/extending each other) are split into 2-4 files with within clauses; the files are merged with Tree.extend in every permutation and through tools.compiler.parse_all and the CasADi API directory walk under two file-name layouts; every model must flatten identically in every order and identically to the unsplit text.",
+      "flat results compared through a semantic projection; directory walk order is only varied through file names",
+      "DESIGN.md section 4, C27")
